@@ -624,6 +624,12 @@ void Evidence::write(int violations, int known)
     j_["known_findings_hit"] = known;
     mkdir((verif_root() + "/evidence").c_str(), 0755);
     write_file(path_, j_.dump(1) + "\n");
+    // a thorough run also leaves a copy that a later quick run does not overwrite
+    if (g_tier == "thorough")
+    {
+        mkdir((verif_root() + "/evidence/thorough").c_str(), 0755);
+        write_file(verif_root() + "/evidence/thorough/" + j_.str("property_id") + ".json", j_.dump(1) + "\n");
+    }
 }
 
 static std::vector<CheckDef>& reg()
